@@ -54,6 +54,8 @@ def op_jdn(op):
         return [Kw("badw"), op[1], op[2], op_jdn(op[3])]
     if k == "dlc":
         return [Kw("dlc"), op[1], op_jdn(op[2])]
+    if k == "trw":
+        return [Kw("trw"), op[1], op[2], op_jdn(op[3])]
     raise ValueError(op)
 
 
@@ -130,6 +132,10 @@ def make_actions(cfg):
                         ("badw", p, 0.5, ("read", p, 4, None))]
                 if nchan:
                     ops.append(("badw", p, 0.5, ("take", 0)))
+                # a read that times out inside a nested fiber, then a second wait of the same task
+                ops += [("trw", p, 1, ("sleep", 3))]
+                if nchan:
+                    ops.append(("trw", p, 1, ("take", 0)))
                 ops += [("read", p, 4, None), ("read", p, 4, 2), ("chunk", p, 4, None), ("chunk", p, 4, 2),
                         ("dl", 2, ("read", p, 4, None)), ("write", p, "ab"), ("write", p, "cdefg")]
                 if not m.pipes[p].wclosed:
@@ -141,6 +147,8 @@ def make_actions(cfg):
             busy_p = {i for i, pp in enumerate(m.pipes) if pp.reader is not None and m.live_wid(pp.reader[0], pp.reader[1])}
 
             def reads(o):
+                if o[0] == "trw":
+                    return o[1]
                 o2 = o[2] if o[0] in ("dl", "dlc") else (o[3] if o[0] == "badw" else o)
                 return o2[1] if o2[0] in ("read", "chunk") else None
             ops = [o for o in ops if reads(o) is None or reads(o) not in busy_p]
@@ -179,6 +187,8 @@ def shape(a):
             return "badw(" + osh(op[3]) + ")"
         if op[0] == "dlc":
             return "dlc(" + osh(op[2]) + ")"
+        if op[0] == "trw":
+            return "trw(" + osh(op[3]) + ")"
         return op[0]
     return a[0] + (":" + osh(a[2]) if a[0] == "start" else "")
 
@@ -271,6 +281,8 @@ def replay_text(cfg, hist, what):
             return "(os/proc-wait (procs %d))" % op[1]
         if k == "dlc":
             return "(do (resume (coro (ev/deadline %s) :done)) %s)" % (op[1], oe(op[2]))
+        if k == "trw":
+            return "(do (try (ev/read ((pipes %d) 0) 4 nil %s) ([e] nil)) %s)" % (op[1], op[2], oe(op[3]))
     lines.insert(3, '(def procs (seq [_ :range [0 %d]] (os/spawn ["/bin/sh" "-c" "read x; exit 3"] :px {:in :pipe})))' % cfg.get("nprocs", 0))
     for a in hist:
         if a[0] == "start":
